@@ -80,6 +80,13 @@ func NewLab(cfg world.Config) (*Lab, error) {
 	if _, err := w.Escrow(w.Channels[0], alice, w.K("bob").Addr, sdk.NewCoin(world.BIG, world.MaxUint256())); err != nil {
 		return nil, fmt.Errorf("escrow ubig: %w", err)
 	}
+	// smaller escrows of two more native coins on the first channel: ueure, and uUSDC, which
+	// differs from uusdc in letter case only
+	for _, d := range []string{world.EURE, world.UP} {
+		if _, err := w.Escrow(w.Channels[0], alice, w.K("bob").Addr, sdk.NewCoin(d, sdkmath.NewInt(10_000_000_000_000))); err != nil {
+			return nil, fmt.Errorf("escrow %s: %w", d, err)
+		}
+	}
 	for _, m := range []string{"auth", "bonded_tokens_pool", "not_bonded_tokens_pool", "orbiter/dust_collector"} {
 		model.BlockedRecipients[ModAddr(m)] = true
 	}
